@@ -162,6 +162,7 @@ func (s *tcDecSim) body() {
 		return p
 	}
 	nodeID := "dtn://peer" + strings.Repeat("x", r.Intn(20)) + "/"
+	add(msgs.NewContactHeader(msgs.ContactFlags(r.Intn(2)))) // 'dtn!' + version + flags, as a session starts
 	p := add(msgs.NewSessionInitMessage(uint16(r.Range(0, 600)), uint64(r.Range(1, 1<<20)), uint64(r.Range(1, 1<<24)), nodeID))
 	fields = append(fields, lenField{p + 1 + 2 + 8 + 8, 2, "SESS_INIT node id length"}, lenField{p + 1 + 2 + 8 + 8 + 2 + len(nodeID), 4, "SESS_INIT session extension items length"})
 	for k := r.Range(1, 3); k > 0; k-- {
